@@ -12,7 +12,7 @@ Local Open Scope Z_scope.
    cell at or above rsp0 + s_memfrom except the hijacked slot is unchanged.
    The contract for xmm registers is [c_call_xmm]: the C wrappers listed in hook_wrappers (generated
    from the C text) run the hook body between the generated save/restore pair of ArchCtx.v, so the
-   theorems below also rest on C01_arch_context_roundtrip; the body itself - including any libc code
+   theorems below also rest on C01_arch_context_roundtrip_avx/_sse; the body itself - including any libc code
    it reaches - may do anything to all sixteen xmm registers. *)
 
 (* every wrapper the stubs call brackets its body with the xmm0-7 pair and with errno save/restore *)
@@ -178,15 +178,26 @@ Theorem C01_errno_preserved : forall (A : Type) (inner : Z -> A * Z) (e : Z),
 Proof. intros. split; [apply errno_preserved | apply errno_result_is_inner]. Qed.
 Print Assumptions C01_errno_preserved.
 
-(* ---- (iv) xmm0-7 around script / memory-region hooks (generated from mcount-support.c) ---- *)
-Theorem C01_arch_context_roundtrip : forall (x : xfile) (c0 : Z -> Z) (clobber : xfile) (r : nat),
-  (r < 8)%nat ->
-  fst (arch_roundtrip_now x c0 clobber r) = fst (x r) /\ snd (arch_roundtrip_now x c0 clobber r) = snd (x r).
-Proof. exact arch_context_roundtrip. Qed.
-Print Assumptions C01_arch_context_roundtrip.
+(* ---- (iv) vector argument/return registers around the hooks (generated from mcount-support.c) ----
+   a register is ((bits 0-63, 64-127), (128-191, 192-255)); avx = the ymm state is enabled *)
+Theorem C01_arch_context_roundtrip_avx : forall (x : yfile) (c0 : Z -> Z) (clobber : yfile) (r : nat),
+  (r < 8)%nat -> arch_roundtrip_now true x c0 clobber r = x r.
+Proof. exact arch_context_roundtrip_avx. Qed.
+Print Assumptions C01_arch_context_roundtrip_avx.
 
-(* the code before the fix (movsd both ways) destroyed the upper halves *)
+Theorem C01_arch_context_roundtrip_sse : forall (x : yfile) (c0 : Z -> Z) (clobber : yfile) (r : nat),
+  (r < 8)%nat -> fst (arch_roundtrip_now false x c0 clobber r) = fst (x r).
+Proof. exact arch_context_roundtrip_sse. Qed.
+Print Assumptions C01_arch_context_roundtrip_sse.
+
+(* the code before fix C01-5 (SSE pair on a machine with live ymm state) lost bits 128-255 *)
+Theorem C01_arch_context_sse_only_refuted :
+  exists (x : yfile) c0 clobber r, (r < 8)%nat /\ snd (arch_roundtrip_sse_only x c0 clobber r) <> snd (x r).
+Proof. exact arch_context_sse_only_refuted. Qed.
+Print Assumptions C01_arch_context_sse_only_refuted.
+
+(* the code before fix C01-1 (movsd both ways) destroyed bits 64-127 *)
 Theorem C01_arch_context_legacy_refuted :
-  exists (x : xfile) c0 clobber r, (r < 8)%nat /\ snd (arch_roundtrip_legacy x c0 clobber r) <> snd (x r).
+  exists (x : yfile) c0 clobber r, (r < 8)%nat /\ snd (fst (arch_roundtrip_legacy x c0 clobber r)) <> snd (fst (x r)).
 Proof. exact arch_context_legacy_refuted. Qed.
 Print Assumptions C01_arch_context_legacy_refuted.
